@@ -92,6 +92,10 @@ pub fn curated() -> Vec<(&'static str, Program)> {
         n(N, Id(C(1))),
         n(N, Sat(C(2))),
     ]);
+    // partial executors: node 0 panics when its input is 2; node 1 demands
+    // it only while the guard in1 is 0 (guard read first)
+    add("partial-guarded", vec![n(N, Partial(In(0))), n(N, If(In(1), In(1), C(0)))]);
+    add("partial-guarded-firewall", vec![n(F, Partial(In(0))), n(N, If(In(1), In(1), C(0))), n(N, Id(C(1)))]);
     add("proj-cond-consumer", vec![
         n(F, Add(In(0), In(1))),
         n(P, Sat(C(0))),
